@@ -112,6 +112,10 @@ def exec (e : Env) : Nat → Sk → St → Option St
   | f + 1, .sub b, st =>
       if cancelled e st then some (halt e st) else exec e f b (tick e st)
 
+/-- `Run` returns the context's error: `stop()` recorded it, or (since 7cff692) the context is
+    cancelled at the end of the run and the last status is success (`if r.exit.ok() { r.exit.fatal(ctx.Err()) }`) -/
+def reported (e : Env) (st : St) : Bool := st.fatal || (cancelled e st && st.ok)
+
 /-- programs as the harness writes them: no internal constructors -/
 def userLevel : Sk → Bool
   | .atom _ => true
